@@ -83,6 +83,7 @@ struct Tap<Item, SinkItem> {
     conn: u64,
     key: u64,
     polled: bool,
+    closing: bool,
     inner: DynT<Item, SinkItem>,
 }
 
@@ -149,7 +150,13 @@ impl<Item, SinkItem: Describe> Sink<SinkItem> for Tap<Item, SinkItem> {
         self.get_mut().inner.as_mut().poll_flush(cx)
     }
     fn poll_close(self: Pin<&mut Self>, cx: &mut Context<'_>) -> Poll<Result<(), io::Error>> {
-        self.get_mut().inner.as_mut().poll_close(cx)
+        let this = self.get_mut();
+        if !this.closing {
+            // the owner starts closing the write side: nothing may be written from here on
+            this.closing = true;
+            emit("SysWireClose", json!({"side": this.side, "k": this.conn}));
+        }
+        this.inner.as_mut().poll_close(cx)
     }
 }
 impl<Item, SinkItem> Drop for Tap<Item, SinkItem> {
@@ -378,8 +385,8 @@ impl World {
                             (Box::pin(ErrMap(ct)), Box::pin(ErrMap(st)))
                         }
                     };
-                let stap: STap = Tap { side: "s", conn: k, key, polled: false, inner: st };
-                let ctap: CTap = Tap { side: "c", conn: k, key, polled: false, inner: ct };
+                let stap: STap = Tap { side: "s", conn: k, key, polled: false, closing: false, inner: st };
+                let ctap: CTap = Tap { side: "c", conn: k, key, polled: false, closing: false, inner: ct };
                 emit("SysConnect", json!({"k": k, "key": key}));
                 let mut ccfg = client::Config::default();
                 ccfg.max_in_flight_requests = self.cfg["maxInFlight"].as_u64().unwrap_or(1000) as usize;
